@@ -1325,8 +1325,8 @@ M("C15-benign-enclosing-walk-while", "C15", "src/cppparser/cppBison.yxx",
 
 # ---------------------------------------------------------------- R11.7 (F-C11b)
 M("C11-zero-make-seq-stored", "C11", "src/interrogate/interrogateBuilder.cxx",
-  "      if (make_seq_index != 0) {\n        itype._make_seqs.push_back(make_seq_index);\n      }",
-  "      itype._make_seqs.push_back(make_seq_index);",
+  "        if (make_seq_index != 0) {\n          itype._make_seqs.push_back(make_seq_index);\n        }",
+  "        itype._make_seqs.push_back(make_seq_index);",
   expect="R11.7|InterrogateBuilder::define_struct_type|_make_seqs.push_back(make_seq_index)|from-get_make_seq")
 M("C11-zero-element-stored", "C11", "src/interrogate/interrogateBuilder.cxx",
   "        if (data_member != 0) {\n          itype._elements.push_back(data_member);\n        }",
@@ -1337,8 +1337,8 @@ M("C11-zero-nested-type-stored", "C11", "src/interrogate/interrogateBuilder.cxx"
   "        TypeIndex nested_index = get_type(type, false);\n        itype._nested_types.push_back(nested_index);",
   expect="R11.7|InterrogateBuilder::define_struct_type|_nested_types.push_back(nested_index)|from-get_type")
 M("C11-benign-zero-test-positive", "C11", "src/interrogate/interrogateBuilder.cxx",
-  "      if (make_seq_index != 0) {\n        itype._make_seqs.push_back(make_seq_index);\n      }",
-  "      if (make_seq_index > 0) {\n        itype._make_seqs.push_back(make_seq_index);\n      }",
+  "        if (make_seq_index != 0) {\n          itype._make_seqs.push_back(make_seq_index);\n        }",
+  "        if (make_seq_index > 0) {\n          itype._make_seqs.push_back(make_seq_index);\n        }",
   benign=True)
 
 # ---------------------------------------------------------------- R05.9 (F-C05b)
@@ -1449,3 +1449,17 @@ M("C11-c-maker-emits-next-index-early", "C11", "src/interrogate/interfaceMakerC.
   "void InterfaceMakerC::\nwrite_prototypes(ostream &out,ostream *out_h) {\n",
   "void InterfaceMakerC::\nwrite_prototypes(ostream &out,ostream *out_h) {\n  out << \"/* next index \" << InterrogateDatabase::get_ptr()->get_next_index() << \" */\\n\";\n",
   expect="R11.8|write_code|InterfaceMakerC::write_prototypes")
+
+# ---------------------------------------------------------------- R16.4 (F-C16b)
+M("C16-cycle-search-without-finished-set", "C16", "src/interrogate/interrogate_module.cxx",
+  "    if (finished.count(*it) != 0) {\n      // We have already been everywhere that can be reached from there, and\n      // found no cycle.\n      continue;\n    }\n",
+  "",
+  expect="R16.4|find_dependency_cycle|recursion-skips-finished-nodes")
+M("C16-cycle-search-never-marks-finished", "C16", "src/interrogate/interrogate_module.cxx",
+  "  finished.insert(cycle.back());\n  return false;",
+  "  return false;",
+  expect="R16.4|find_dependency_cycle|no-cycle-return-marks-node-finished")
+M("C16-benign-cycle-search-find-form", "C16", "src/interrogate/interrogate_module.cxx",
+  "    if (finished.count(*it) != 0) {",
+  "    if (finished.find(*it) != finished.end()) {",
+  benign=True)
